@@ -65,6 +65,10 @@ pub struct Case {
     pub spec: SessionSpec,
     pub faults: Vec<Fault>,
     pub plen: usize,
+    /// both parties are also given a (different) remote static key the pattern does not need;
+    /// get_remote_static() then has a visible value that a failed read must not change
+    #[serde(default)]
+    pub extra_rs: bool,
 }
 
 #[derive(Clone, PartialEq)]
@@ -115,10 +119,18 @@ struct Outcome {
     not_a_failure: bool,
 }
 
+thread_local! {
+    static EXTRA_RS: std::cell::Cell<bool> = const { std::cell::Cell::new(false) };
+}
+
 fn build_side(spec: &SessionSpec, initiator: bool, omit: &[u8]) -> Result<HandshakeState, Fail> {
     let rng = SharedRng::seeded(spec.key_seed ^ 0x33, spec.suite.dh == DhKind::P256);
     rng.script(&spec.e_priv(initiator));
-    let ov = EpOverrides { omit_psks: omit.to_vec(), ..Default::default() };
+    let mut ov = EpOverrides { omit_psks: omit.to_vec(), ..Default::default() };
+    if EXTRA_RS.with(|x| x.get()) && !spec.pattern().role_needs_remote_static(initiator) {
+        ov.supply_rs = Some(true);
+        ov.rs_value = Some(crate::refcrypto::dh_pub(spec.suite.dh, &priv_from_seed(spec.suite.dh, spec.key_seed, 4321)).unwrap());
+    }
     build_snow(spec, initiator, &ov, &Instr { rng: Some(rng), log: None }).map_err(|x| Fail::setup(format!("build {}: {}", spec.name_string(), e(&x))))
 }
 
@@ -508,8 +520,18 @@ fn snapshot_check(spec: &SessionSpec, f: &Fault, plen: usize) -> Result<bool, Fa
 }
 
 pub fn oracle(c: &Case, acc: &mut Acc) -> CaseResult {
+    EXTRA_RS.with(|x| x.set(c.extra_rs));
+    let r = oracle_inner(c, acc);
+    EXTRA_RS.with(|x| x.set(false));
+    r
+}
+
+fn oracle_inner(c: &Case, acc: &mut Acc) -> CaseResult {
     let spec = &c.spec;
     let name = spec.name_string();
+    if c.extra_rs {
+        acc.label("variant:unneeded_remote_static_supplied");
+    }
     // (1) snapshot invariance of each injected failure in isolation
     for f in &c.faults {
         if !snapshot_check(spec, f, c.plen)? {
@@ -657,12 +679,20 @@ fn specs(names: &[HsName], per_name_suites: usize, seed: u64) -> Vec<SessionSpec
 }
 
 pub fn run(ctx: &Ctx) {
-    let names = if ctx.tier == Tier::Thorough { all_hs_names() } else { some_hs_names(2) };
+    let names = if ctx.tier == Tier::Thorough { all_hs_names() } else { some_hs_names(5) };
     let sp = specs(&names, ctx.tier.pick(1, 3), ctx.seed);
     let mut cases = Vec::new();
     for s in &sp {
         for f in faults_for(s, 5) {
-            cases.push(Case { spec: s.clone(), faults: vec![f], plen: 5 });
+            cases.push(Case { spec: s.clone(), faults: vec![f], plen: 5, extra_rs: false });
+        }
+    }
+    // the same read-side faults with an unneeded remote static key supplied up front
+    for s in sp.iter().filter(|s| s.pattern().remote_static_arrives_at(true).is_some() || s.pattern().remote_static_arrives_at(false).is_some()) {
+        for f in faults_for(s, 5) {
+            if matches!(f.cause, Cause::RFlip(..) | Cause::RTrunc(_) | Cause::RPbuf(_) | Cause::RExtend(_) | Cause::RForeign) && f.idx < s.n_msgs() && (f.idx + s.hs.psks.len()) % 3 == 0 {
+                cases.push(Case { spec: s.clone(), faults: vec![f], plen: 5, extra_rs: true });
+            }
         }
     }
     ctx.note(format!("{} session specs, {} single-fault cases", sp.len(), cases.len()));
@@ -688,7 +718,7 @@ pub fn run(ctx: &Ctx) {
                     faults.push(f);
                 }
                 faults.sort_by_key(|f| f.idx);
-                Case { spec, faults, plen }
+                Case { spec, faults, plen, extra_rs: plen % 4 == 0 }
             })
         },
         oracle,
